@@ -19,7 +19,7 @@ EXPLANATION = (
     "exception isolation in the three _notify_subscribers (C07.R7 re-used). Ordering between concurrently completing callbacks is not decided."
 )
 ASSUMPTIONS = ["dataclass __eq__ compares all fields (the records are @dataclass without eq=False)", "set.add is idempotent, set.discard removes"]
-FLOORS = {"C12.R1": 27, "C12.R2": 9, "C12.R3": 8, "C12.R4": 20, "C12.R5": 3, "C12.R6": 1}
+FLOORS = {"C12.R1": 27, "C12.R2": 9, "C12.R3": 8, "C12.R4": 20, "C12.R5": 3, "C12.R6": 1, "C12.R7": 1}
 
 UPDATE_FUNCS = [
     (AT4_API, "At4Zone", "update_"),
@@ -39,6 +39,10 @@ def run(ctx):
     r4(ctx)
     r5(ctx)
     r6(ctx)
+    from . import c09
+    from .common import reuse
+
+    reuse(ctx, "C12.R7", [lambda c: c09.r5(c, AT4_API), lambda c: c09.r5(c, AT5_API)], "each air-conditioner is given exactly the zones the console assigns to it, so zone changes reach the subscribers of the owning air-conditioner and of no other (C09.R5)")
 
 
 RECORDS = ("_ac_status", "_ac_timer_status", "_group_status", "_zone_status", "_console_version", "_ac_ability", "_ac_error_info")
